@@ -44,6 +44,14 @@ async fn run(mut sim: Sim, _seed: u64) -> Result<Value, String> {
     }
     sim.subscribe(victim).unwrap();
     settle(&mut sim, 30).await;
+    // a pair that dials again shortly before the shutdown: one of its connections is replaced, and what is
+    // left of the replaced one is released by the shutdown like everything else
+    if sim.rng.gen_bool(0.5) {
+        let o = (victim + 1 + sim.rng.gen_range(0..n - 1)) % n;
+        let (a, b) = if sim.rng.gen_bool(0.5) { (victim, o) } else { (o, victim) };
+        let _ = sim.connect(a, sim.addr(b), Some(sim.peer_id(b))).await;
+        settle(&mut sim, 30).await; // both ends have settled on the surviving connection
+    }
     let weak = sim.net(victim).downgrade();
     // load: slow RPCs in both directions
     let mut tasks = Vec::new();
